@@ -57,6 +57,12 @@ CLAIMED.update({
         text="The real matching code (IsInIdle.cmd_sent with the gateway-id substitution, WantEcho.pkt_rcvd, WantRply.pkt_rcvd over pkt_header/_ctx/_idx/_pkt_idx and Command.tx_header/rx_header) runs on requests taken from the logs and built by 25 public constructors, with the context characters/arguments and the gateway's six id digits symbolic; per path the solver shows the substituted echo leaves the echo wait, the reply of an independently modelled conforming device (same context positions, other payload characters symbolic) is returned as the result, and packets differing in exactly one of code/verb/device/context are taken for neither.",
         note="Trusted: z3, symx, the recording stand-in for ProtocolContext, the independent context-position table. Bounds: one (thorough: 3) logged request per (verb, code, length); 8 (16) further reply characters symbolic; 1FC9 is under C20.", design="4/C06"),
 })
+CLAIMED.update({
+    "C03": dict(
+        text="Every constructor of CODE_API_MAP is called with symbolic arguments over its documented domain and a margin around it (indexes -2..300 / hex text, temperatures k/100 over about twice the domain, percent grid, mode x until x duration selectors, Gregorian date-time fields, symbolic names, all msg ids, fragment numbers/counts 0..255) and the result is decoded by the real Message._from_cmd; per path the solver shows verb|code is the registered key, the decoder accepts the frame, and every decoded field with an argument counterpart equals the argument - or the constructor raised.",
+        note="Trusted: z3, symx, the expected-field table of checks/c03.py. Float arguments are exact reals on the wire grid (binary rounding of the hex_from_* helpers is C04's). 42 argument regions in which the constructors accept what the decoder rejects / changes are recorded known findings (each with its region predicate, so anything outside the regions is still reported); two defects were repaired (get_zone_setpoint verb, _check_idx range test).",
+        design="4/C03"),
+})
 NOT_APPLICABLE = {
     "C12": "whole-gateway discovery against a scripted controller over simulated hours: the quantified space is a discrete configuration/loss pattern and the entity layer (voluptuous schemas, pollers, entity graph) is outside the symbolically executable subset; decode kernels it rests on are covered under C05",
     "C15": "schema validity/consistency over packet histories: validators are voluptuous (third-party, callable/regex based, not instrumented) and the rules live in the entity graph; no symbolic dimension is encodable within reach",
